@@ -49,6 +49,10 @@ KindThrough(fs, p, n) == IF ~Exists(fs, p) THEN "none" ELSE IF fs[p].k # "link" 
 ChaseDepth == 6
 TK(fs, t) == KindThrough(fs, t, ChaseDepth)
 
+\* kind recorded with a new link: the kind its target has now; "?" (not settled) when the target is itself a link
+\* whose recorded kind no longer matches what it points to (stale chain: the backends look one level / all levels)
+LinkTK(fs, t) == IF Exists(fs, t) /\ fs[t].k = "link" /\ TK(fs, fs[t].t) # fs[t].tk THEN "?" ELSE TK(fs, t)
+
 ROk(v)   == [o |-> "ok", v |-> v]
 RErr(k)  == [o |-> k, v |-> <<>>]
 RErrAny  == [o |-> "*", v |-> <<>>]          \* documented to fail, kind not documented
@@ -143,7 +147,7 @@ Op_symlink(st, own, l, t) == LET fs == st.fs  e == CreateErr(fs, l, "link") IN
   IF e = "root" THEN R(st, RErrAny)
   ELSE IF e # "-" THEN R(st, RErr(e))
   ELSE IF Exists(fs, l) THEN R(st, RAny)                          \* D6: existing link, unchanged
-  ELSE R(WithFs(st, Put(fs, l, NLink(t, TK(fs, t), own))), ROk(l))
+  ELSE R(WithFs(st, Put(fs, l, NLink(t, LinkTK(fs, t), own))), ROk(l))
 
 \* ---- move ----
 MoveTarget(fs, s, d) == IF IsDir(fs, d) THEN Append(d, Base(s)) ELSE d
@@ -152,7 +156,7 @@ Relocate(fs, s, t) == LET moved == Sub(fs, s) gone == Sub(fs, t) IN
         IF IsPrefix(t, q) /\ \E x \in moved : Rebase(x, s, t) = q THEN fs[Rebase(q, t, s)] ELSE fs[q]]
 Op_move_p(st, s, d) == LET fs == st.fs IN
   IF ~Exists(fs, s) THEN R(st, RErr("Path::DoesNotExist"))
-  ELSE IF s = Root THEN R(st, RErrAny)
+  ELSE IF s = Root THEN (IF d = Root THEN R(st, RAny) ELSE R(st, RErrAny))     \* the root cannot be moved; onto itself: no-op or error
   ELSE LET t == MoveTarget(fs, s, d) IN
     IF t = s THEN R(st, ROk(Unit))
     ELSE IF IsPrefix(s, t) THEN R(st, RErrAny)                    \* into itself
@@ -168,17 +172,15 @@ CopyOne(fs, own, snap, x, s, t, co) == LET q == Rebase(x, s, t) n == snap[x] IN
    IF n.k = "dir" THEN (IF Exists(fs, q) THEN (IF IsDir(fs, q) THEN [fs |-> fs, e |-> "-"] ELSE [fs |-> fs, e |-> "*"])
                         ELSE [fs |-> Put(fs, q, [NDir(own) EXCEPT !.mode = CopyMode(n, co.dm, DirType)]), e |-> "-"])
    ELSE IF n.k = "file" THEN (IF Exists(fs, q) /\ ~IsFile(fs, q) THEN [fs |-> fs, e |-> "*"]
-                              ELSE [fs |-> Put(fs, q, IF Exists(fs, q) THEN [fs[q] EXCEPT !.d = n.d]
+                              ELSE [fs |-> Put(fs, q, IF Exists(fs, q) THEN [fs[q] EXCEPT !.d = n.d, !.mode = 0]      \* mode of a pre-existing file: not settled (0 = wildcard)
                                                       ELSE [NFile(n.d, own) EXCEPT !.mode = CopyMode(n, co.fm, FileType)]), e |-> "-"])
    ELSE (IF Exists(fs, q) THEN (IF IsLink(fs, q) THEN [fs |-> fs, e |-> "-"] ELSE [fs |-> fs, e |-> "*"])
-         ELSE [fs |-> Put(fs, q, NLink(n.t, TK(fs, n.t), own)), e |-> "-"])
+         ELSE [fs |-> Put(fs, q, NLink(n.t, IF IsPrefix(t, n.t) \/ TK(snap, n.t) # n.tk THEN "?" ELSE LinkTK(fs, n.t), own)), e |-> "-"])   \* target inside the destination being built, or stale: order dependent
 RECURSIVE CopySeq(_, _, _, _, _, _, _)
 CopySeq(fs, own, snap, todo, s, t, co) == IF todo = <<>> THEN [fs |-> fs, e |-> "-"] ELSE
    LET r == CopyOne(fs, own, snap, Head(todo), s, t, co) IN IF r.e # "-" THEN r ELSE CopySeq(r.fs, own, snap, Tail(todo), s, t, co)
 RECURSIVE SortByLen(_)
 SortByLen(S) == IF S = {} THEN <<>> ELSE LET m == CHOOSE x \in S : \A y \in S : Len(x) <= Len(y) IN <<m>> \o SortByLen(S \ {m})
-\* pre-existing files keep their mode or take the source's / the option's: not settled (Unconstrained)
-ModeFree(pre, post, T) == [q \in DOMAIN post |-> IF q \in DOMAIN pre /\ IsPrefix(T, q) /\ post[q].k = "file" THEN [post[q] EXCEPT !.mode = 0] ELSE post[q]]
 Op_copy_b(st, own, s, d, co) == LET fs == st.fs IN
   IF s = d THEN R(st, ROk(Unit))
   ELSE IF ~Exists(fs, s) THEN R(st, RErr("Path::DoesNotExist"))
@@ -263,6 +265,11 @@ Listing(fs, p, what) ==
    IF what \in {"paths", "all_paths"} THEN base
    ELSE IF what \in {"dirs", "all_dirs"} THEN {q \in base : DirIsh(fs, q)}
    ELSE {q \in base : FileIsh(fs, q)}
+
+\* ---- comparison with wildcards: tk = "?" and mode = 0 in an expected node match anything ----
+NodeEq(e, g) == /\ e.k = g.k /\ e.d = g.d /\ e.t = g.t /\ (e.tk = "?" \/ e.tk = g.tk)
+                /\ (e.mode = 0 \/ e.mode = g.mode) /\ e.uid = g.uid /\ e.gid = g.gid
+StEq(E, G) == /\ E.cwd = G.cwd /\ DOMAIN E.fs = DOMAIN G.fs /\ \A p \in DOMAIN E.fs : NodeEq(E.fs[p], G.fs[p])
 
 TreeOK(fs) == Root \in DOMAIN fs /\ fs[Root].k = "dir" /\ \A p \in DOMAIN fs \ {Root} : IsDir(fs, Parent(p))
 =============================================================================
